@@ -60,6 +60,8 @@ TreeCases ==
    Tree(<<Card, F("home", "@component(\"~card\", {n: 1})@slot(\"x\")1@end@slot(\"y\")3@end@slot(\"y\")4@end@slot(\"x\")2@end@slot(\"x\")5@end@end")>>, "home", "duplicate-slots"),
    Tree(<<Card, F("home", "@component(\"~card\", {n: 1})@slot(\"p\")1@end@slot(\"q\")2@end@slot(\"r\")3@end@slot(\"s\")4@end@end")>>, "home", "unknown-slots"),
    Tree(<<Card, F("home", "@component(\"~card\", {n: 1})@slot(\"x\")0@end@slot(\"q\")2@end@slot(\"p\")1@end@slot3@end@end")>>, "home", "unknown-slots"),
+   Tree(<<Card, F("home", "@component(\"~ghost1\")@component(\"~ghost2\")@component(\"~ghost3\")@component(\"~card\", {n: 1})@slot(\"zz\")1@end@end")>>, "home", "faulty-components"),
+   Tree(<<Card, F("components/other", "@slot(\"a\")"), F("home", "@component(\"~other\")@slot(\"b\")1@end@end@component(\"~card\", {n: 1})@slot(\"q\")2@end@end@component(\"~nope\")")>>, "home", "faulty-components"),
    Tree(<<F("a", "@if("), F("b", "{{ 1 + }}"), F("c", "@each(x on y)@end"), F("d", "ok")>>, "d", "faulty-files"),
    Tree(<<F("a", "@use(\"ghost\")"), F("b", "@component(\"phantom\")"), F("c", "{{ ~ }}"), F("sub/d", "{{ \"x }}"), F("e", "fine")>>, "e", "faulty-files"),
    Tree(<<Card, F("home", "@component(\"~card\", {n: zz, m: yy, k: 1 / 0})")>>, "home", "failing-arguments"),
